@@ -35,11 +35,26 @@ type findServer struct {
 	opts    []rwriter.Option
 	served  int
 	lastErr error
+	wrap    int // how the handler hands errors to EncodeError: 0 as is, 1 wrapped with %w, 2 wrapped twice, 3 joined
+}
+
+// wrapped adds the context a handler typically adds before reporting an error.
+func (f *findServer) wrapped(err error) error {
+	switch f.wrap {
+	case 1:
+		return fmt.Errorf("find handler: %w", err)
+	case 2:
+		return fmt.Errorf("request %d: %w", f.served, fmt.Errorf("find handler: %w", err))
+	case 3:
+		return errors.Join(errors.New("find handler failed"), err)
+	}
+	return err
 }
 
 func (f *findServer) ServeHTTP(w http.ResponseWriter, req *http.Request) {
 	rw, err := rwriter.New(w, req, f.opts...)
 	if err != nil {
+		err = f.wrapped(err)
 		f.lastErr = err
 		var ae *apierror.Error
 		status := http.StatusBadRequest
@@ -58,6 +73,7 @@ func (f *findServer) ServeHTTP(w http.ResponseWriter, req *http.Request) {
 		f.served++
 	}
 	if err := pw.Close(); err != nil {
+		err = f.wrapped(err)
 		var ae *apierror.Error
 		if errors.As(err, &ae) {
 			w.WriteHeader(ae.Status())
@@ -109,7 +125,7 @@ func runC19(r *simkit.Run, c Cfg) {
 	http.DefaultTransport = net.Transport()
 	preferJSON := tp.Chance(1, 2, "preferJson")
 	mhType, cidType := "multihash", "cid"
-	fs := &findServer{r: r, index: map[string][]model.ProviderResult{}}
+	fs := &findServer{r: r, index: map[string][]model.ProviderResult{}, wrap: tp.Choose(4, "errwrap")}
 	fs.opts = append(fs.opts, rwriter.WithPreferJson(preferJSON))
 	if tp.Chance(1, 4, "customPaths") {
 		mhType, cidType = "mh", "c"
